@@ -126,9 +126,17 @@ class Ctx:
       sub = Ctx(src_prop, self.tier, self.src)
       sub.index, sub.lattice = self.index, self.lattice
       sub._importing = True
-      mod.run(sub)
-      sub.vacuity()
+      try:
+        mod.run(sub)
+        sub.vacuity()
+      except AnalysisError as e:
+        # the shared rules cannot be decided on this tree: the importing check goes on with its own rules and with
+        # whatever the source module had established before it gave up (violations found there are real); if nothing
+        # is violated the check ends as analysis-broken (exit 2), never as a silent pass
+        sub.deferred_error = f'shared rules of {src_prop}: {e}'
       cache[src_prop] = sub
+    if getattr(sub, 'deferred_error', None) and not getattr(self, 'deferred_error', None):
+      self.deferred_error = sub.deferred_error
     known = load_known()
     n = 0
     for o in sub.obligations:
@@ -148,6 +156,8 @@ class Ctx:
 
   # --------------------------------------------------------------- verdict
   def vacuity(self) -> None:
+    if getattr(self, 'deferred_error', None) and any(not o.ok and not o.info_only for o in self.obligations):
+      return  # violations are reported; the deferred analysis error is raised by finish() otherwise
     per_rule: Dict[str, int] = {}
     for o in self.obligations:
       per_rule[o.rule] = per_rule.get(o.rule, 0) + 1
@@ -229,6 +239,8 @@ def finish(ctx: Ctx, selftest: Optional[Dict[str, Any]] = None) -> int:
         print(f'      via {p}')
     print(f'VIOLATION property={ctx.prop} replay={rp}')
 
+  if getattr(ctx, 'deferred_error', None) and not violations:
+    raise AnalysisError(ctx.deferred_error)
   n_ob = len([o for o in ctx.obligations if not o.info_only])
   n_ok = len([o for o in ctx.obligations if o.ok])
   distinct = len({(o.rule, o.instance, o.where) for o in ctx.obligations if not o.info_only})
